@@ -79,6 +79,9 @@ func (mv *MessageView) SkipBodyUnlessContentType(cts ...string) {
 func (mv *MessageView) SnapshotRequest(req *http.Request) error {
 	buf := new(bytes.Buffer)
 
+	// A view may be loaded more than once: forget the previous message.
+	mv.chunked = false
+
 	fmt.Fprintf(buf, "%s %s HTTP/%d.%d\r\n", req.Method,
 		req.URL, req.ProtoMajor, req.ProtoMinor)
 
@@ -159,6 +162,9 @@ func (mv *MessageView) SnapshotRequest(req *http.Request) error {
 // body with the in-memory copy. This method is semantically a no-op.
 func (mv *MessageView) SnapshotResponse(res *http.Response) error {
 	buf := new(bytes.Buffer)
+
+	// A view may be loaded more than once: forget the previous message.
+	mv.chunked = false
 
 	fmt.Fprintf(buf, "HTTP/%d.%d %s\r\n", res.ProtoMajor, res.ProtoMinor, res.Status)
 
